@@ -95,6 +95,23 @@ def run_batch(item):
             obs = []
             named = {}
             for st in s['steps']:
+                if st.get('reload_before'):
+                    # the configuration file changes in a way the step names and is reloaded while this client stays connected
+                    from .world import render_config, default_general
+                    nm = names[cfg_key(s['cfg'])]
+                    for k2, v2 in st['reload_before'].items():
+                        if k2 == 'bump_idle_timeout':
+                            pools[nm]['idle_timeout'] = pools[nm].get('idle_timeout', 40000) + 1000
+                        else:
+                            pools[nm][k2] = v2
+                    g = default_general(w.port)
+                    g.update(item.get('general') or {})
+                    w.write_config(render_config(g, pools))
+                    try:
+                        w.admin_cmd('RELOAD', timeout=6.0)
+                    except OSError:
+                        pass
+                    time.sleep(0.05)
                 o = {'serials': []}
                 kind = st['kind']
                 t_mark = w.log.mark()
